@@ -1,2 +1,4 @@
+pub mod alias;
 pub mod hist;
 pub mod value;
+pub mod vecs;
